@@ -276,6 +276,8 @@ def make_translator(config=None):
         layout.append(("rst", [("o", 1)]))
     if cfg["record"] == "rst_clko":
         layout.append(("clk", [("o", 1)]))
+    if cfg["record"] == "clki":                  # the PHY provides the clock: the 'usb' domain is clocked from clk.i
+        layout.append(("clk", [("i", 1)]))
     bus = Record(layout)
     cls = UTMITranslator
     if cfg["startup"] is not None:
@@ -347,8 +349,19 @@ class TranslatorBench:
         self.dut, self.bus, self.cfg, self.cds, self.xsigs = t["dut"], t["bus"], t["cfg"], t["cds"], t["xsigs"]
         self.domain = self.cfg["domain"]
         self.sim = Simulator(t["frag"])
-        for name in self.cds:
-            self.sim.add_clock(1 / 60e6, domain=name)
+        if self.cfg["record"] == "clki":
+            bus = self.bus
+
+            async def phy_clock(ctx):
+                while True:
+                    await ctx.delay(1 / 120e6)
+                    ctx.set(bus.clk.i, 1)
+                    await ctx.delay(1 / 120e6)
+                    ctx.set(bus.clk.i, 0)
+            self.sim.add_testbench(phy_clock, background=True)
+        else:
+            for name in self.cds:
+                self.sim.add_clock(1 / 60e6, domain=name)
         self._script = None
         self._out = None
         self._first = True
@@ -439,7 +452,7 @@ class TranslatorBench:
             stp = ctx.get(bus.stp.o)
             txr = ctx.get(dut.tx_ready)
             rst_o = ctx.get(bus.rst.o) if has_rst else 0
-            r = {"rst": 1 if in_reset else 0, "x1": xreq(xaddrs[0]) if xaddrs else 0,
+            r = {"rst": 1 if in_reset else 0, "rsto": rst_o, "x1": xreq(xaddrs[0]) if xaddrs else 0,
                  "x2": xreq(xaddrs[1]) if len(xaddrs) > 1 else 0,
                  "p1": phy.regs.get(xaddrs[0], 0) if xaddrs else 0,
                  "p2": phy.regs.get(xaddrs[1], 0) if len(xaddrs) > 1 else 0,
